@@ -23,6 +23,7 @@ def register(R):
             # exactly the requested cell length whenever padding is on or the line is too long
             "implies(pad or line_cells(line) >= length, line_cells(result) == length)",
             "implies(not pad and line_cells(line) <= length, len(result) == len(line) and all(result[i] == line[i] for i in range(len(line))))",
+            "implies(not pad and line_cells(line) <= length, line_cells(result) == line_cells(line))",
             # padding is one trailing segment of spaces carrying exactly the requested style; the original segments are untouched
             "implies(pad and line_cells(line) < length, len(result) == len(line) + 1 and all(result[i] == line[i] for i in range(len(line))) and result[len(line)].style == style and not result[len(line)].is_control and cells(result[len(line)].text) == length - line_cells(line))",
             # cropping keeps a prefix of the segments unchanged and cuts inside one segment (same style)
@@ -33,3 +34,35 @@ def register(R):
                                   "line_length == line_cells(line[:i])", "line_length == line_cells(new_line)", "line_length <= length"])},
         native=False,
     )
+
+
+def register_split(R):
+    R.contract(
+        "rich.segment", "Segment.split_and_crop_lines", serves=["C13", "C08", "C01"],
+        params={"segments": "list[Segment]", "length": "int", "style": "Optional[Style]", "pad": "bool", "include_new_lines": "bool"},
+        returns="list[list[Segment]]", ghost={"yields": "list[Segment]"},
+        requires=["length >= 0", "width_of(10) == 0"],
+        ensures=[
+            # every produced line has exactly the requested cell length when padding, at most that otherwise
+            "all(line_cells(result[k]) <= length for k in range(len(result)))",
+            "implies(pad, all(line_cells(result[k]) == length for k in range(len(result))))",
+        ],
+        loops={
+            0: Loop(header="for segment in segments", index="i",
+                    invariant=["all(line_cells(__yielded__[k]) <= length for k in range(len(__yielded__)))",
+                               "implies(pad, all(line_cells(__yielded__[k]) == length for k in range(len(__yielded__))))"]),
+            1: Loop(header="while text",
+                    invariant=["all(line_cells(__yielded__[k]) <= length for k in range(len(__yielded__)))",
+                               "implies(pad, all(line_cells(__yielded__[k]) == length for k in range(len(__yielded__))))"],
+                    decreases="len(text)"),
+        },
+        native=False,
+    )
+
+
+_s0 = register
+
+
+def register(R):
+    _s0(R)
+    register_split(R)
